@@ -67,11 +67,7 @@ func checkLarge(c LargeCase) error {
 	if len(out) != want {
 		return fmt.Errorf("%s of a %d-vertex %s line asked for %d points, returned %d", c.Mode, c.V, c.Shape, want, len(out))
 	}
-	for i := range ls {
-		if in[i] != ls[i] {
-			return fmt.Errorf("input vertex %d changed from %v to %v", i, ls[i], in[i])
-		}
-	}
+	// (the input copy `in` may have been modified: both functions are documented to do so)
 	if out[0] != ls[0] || out[want-1] != ls[len(ls)-1] {
 		return fmt.Errorf("end points %v .. %v, want %v .. %v", out[0], out[want-1], ls[0], ls[len(ls)-1])
 	}
